@@ -27,8 +27,10 @@ def rule_validate_row(ctx):
 
 
 def rule_cursor(ctx):
-    ctx.res.minimum("O4.2", 3)
+    ctx.res.minimum("O4.2", 4)
     protocol.reader_rows_table(ctx, "O4.2", {"lines"}, "Reader.rows")
+    # a second pass over the data with the same Reader numbers its rows from the start again
+    protocol.reader_rows_table(ctx, "O4.2", {"lines"}, "Reader.rows twice")
     model = ctx.model
 
     # Location.__init__ starts at line 0 / cell 0; advance_line adds one and resets the cell; __str__ is 1-based
@@ -130,4 +132,11 @@ def rule_ods_rows_keep_their_cells(ctx):
     rule_empty_rows(ctx, "O4.5")
 
 
-RULES = [rule_validate_row, rule_cursor, rule_location_copies, rule_raw_rows_dispatch, rule_ods_rows_keep_their_cells, rule_module_state]
+def rule_csv_errors_name_their_line(ctx):
+    """O10.csv-error (shared with C10/C06): a row the csv reader cannot parse is reported with the number of that line."""
+    from .c10 import rule_delimited_error_helper
+
+    rule_delimited_error_helper(ctx, check_location=True)
+
+
+RULES = [rule_validate_row, rule_cursor, rule_location_copies, rule_raw_rows_dispatch, rule_ods_rows_keep_their_cells, rule_csv_errors_name_their_line, rule_module_state]
